@@ -227,7 +227,7 @@ def check_history(times, types, part_idx, other_task, passthrough, res):
             "runner_throughput": passthrough,
             "values": [[round(x[0] - START, 3), str(x[2]), round(x[3], 4)] for o in outs for x in o[1]],
         }
-        if res.evaluations % 50021 == 5
+        if res.sample_now(50021)
         else None,
         nontrivial_key=(times, types, part_idx, other_task, passthrough) if len(times) > 1 else None,
         outcome_key=(ntup, tuple(round(x[3], 6) for o in outs for x in o[1])),
